@@ -45,6 +45,11 @@ class DirectoryNamingMethod(StrEnum):
 class DirectoryCreator(Serializable):
     """A class to create directories."""
 
+    _ATTR_NOT_TO_SERIALIZE = Serializable._ATTR_NOT_TO_SERIALIZE.union([
+        # The lock is created again at deserialization.
+        "_DirectoryCreator__lock",
+    ])
+
     __counter: Value
     """The number of created directories."""
 
